@@ -643,3 +643,115 @@ pub fn adapters(tr: &mut Tr, g: &mut G) {
         }
     });
 }
+
+// =============================================================================================
+// Exact points of the power function (class E in every float back-end)
+// =============================================================================================
+/// std, libm and micromath are all *exact* at x^0 = 1 (every finite x, 0^0 = 1 included), 1^y = 1
+/// and 0^1 = 0, so observations that reach powf only at such points are bit-comparable across all
+/// seven builds even though micromath is otherwise only a coarse approximation.
+/// * `pow.special.*`: ExponentStream on constant inputs at those points.
+/// * `ewma.{f32,q}.exact*`: EWMA histories whose lambda is exact by construction: repeated
+///   timestamps (dt = 0 => powf(1-s, 0) = 1 => lambda = 0, the output keeps the previous value, for
+///   every s including 1.0 where the base is 0), smoothing 0.0 with dt > 0 (powf(1, dt) = 1,
+///   lambda = 0), and smoothing 1.0 with dt >= 1 s (powf(0, dt) is 0 or far below 2^-25, lambda
+///   rounds to exactly 1, the output is the new value).
+pub fn exact_points(tr: &mut Tr, g: &mut G, pw: &CratePow) {
+    // ---- ExponentStream at the exact points
+    let xs = [
+        0.0f32,
+        -0.0,
+        1.0,
+        g.pos(1e-3, 1e3),
+        g.pos(1e-3, 1e3),
+        g.val(1e4),
+        -g.pos(1e-3, 1e3),
+        -g.pos(1e-3, 1e3),
+    ];
+    let ys = [g.uniform(-50.0, 50.0), g.val(1e3), -g.pos(1e-3, 1e2), g.pos(1e-3, 1e2)];
+    guarded(tr, "pow.special", |tr| {
+        for x in xs {
+            tr.f("pow.special.x0", pw.powf(x, 0.0));
+        }
+        for y in ys {
+            tr.f("pow.special.1y", pw.powf(1.0, y));
+        }
+        tr.f("pow.special.01", pw.powf(0.0, 1.0));
+        tr.f("pow.special.00", pw.powf(0.0, 0.0));
+    });
+    // ---- EWMA with exact lambdas, f32 and Quantity variants on the same history
+    let (u, _, _) = pick_unit(g);
+    let s_mid = g.uniform(0.02, 0.98);
+    for (si, sm) in [0.0f32, 1.0, s_mid].into_iter().enumerate() {
+        let t0 = g.range(0, 1_000_000_000_000);
+        let dt_long = g.step(1_000_000_000, 10_000_000_000);
+        let dt_any = g.step(1_000_000, 10_000_000_000);
+        let v: Vec<f32> = (0..8).map(|_| g.nz(1e3)).collect();
+        // (stamp, value, sub-tag); None = absent, Err = error event
+        #[derive(Clone, Copy)]
+        enum Step {
+            S(i64, f32, &'static str),
+            Absent,
+            Fail(u8),
+        }
+        let mut steps = vec![
+            Step::S(t0, v[0], ".first"),
+            Step::S(t0, v[1], ".same_stamp"),
+            Step::S(t0, v[2], ".same_stamp"),
+        ];
+        let mut t = t0;
+        if si == 0 {
+            // no weight on new data at all: every later sample keeps the first value
+            t += dt_any;
+            steps.push(Step::S(t, v[3], ".s0_dt"));
+            t += dt_long;
+            steps.push(Step::S(t, v[4], ".s0_dt"));
+        } else if si == 1 {
+            // all weight on new data once dt >= 1 s
+            t += dt_long;
+            steps.push(Step::S(t, v[3], ".s1_dt"));
+            steps.push(Step::S(t, v[4], ".same_stamp"));
+        }
+        steps.push(Step::Absent);
+        steps.push(Step::Fail(1 + (si as u8 % 2)));
+        steps.push(Step::Absent);
+        t += dt_any;
+        steps.push(Step::S(t, v[5], ".first"));
+        steps.push(Step::S(t, v[6], ".same_stamp"));
+        let src = Src::<f32>::new();
+        let srcq = Src::<Quantity>::new();
+        guarded(tr, "ewma.exact", |tr| {
+            let mut sf = EWMAStream::new(src.dynref(), sm);
+            let mut sq = EWMAStream::new(srcq.dynref(), sm);
+            for st in &steps {
+                let suf = match *st {
+                    Step::S(t, x, suf) => {
+                        src.some(t, x);
+                        srcq.some(t, Quantity::new(x, u));
+                        suf
+                    }
+                    Step::Absent => {
+                        src.set(Ok(None));
+                        srcq.set(Ok(None));
+                        ".absent"
+                    }
+                    Step::Fail(e) => {
+                        src.set(Err(Error::Other(e)));
+                        srcq.set(Err(Error::Other(e)));
+                        ".error"
+                    }
+                };
+                let rf = sf.update();
+                let rq = sq.update();
+                let (tf, tq) = (format!("ewma.f32.exact{}", suf), format!("ewma.q.exact{}", suf));
+                tr.noe(&tf, ".upd", &rf);
+                tr.noe(&tq, ".upd", &rq);
+                tr.out_f(&tf, &sf.get());
+                tr.out_q(&tq, &sq.get());
+            }
+            if let Ok(Some(d)) = sq.get() {
+                tr.q("ewma.q.exact.unit_sum", d.value + Quantity::new(1.0, u));
+            }
+        });
+    }
+}
